@@ -432,6 +432,26 @@ pub fn family(name: &str, _tier: Tier) -> Vec<Prog> {
                 })
             })
             .collect(),
+        "c07/handler_writes" => {
+            let shapes: Vec<(Vec<NodeSpec>, u8)> = vec![
+                (vec![var(0), var(1), map(F1::Inc, 0), map2(F2::Mix, 2, 1)], 1),
+                (vec![var(0), var(1), map(F1::Half, 0), map(F1::Inc, 1), map2(F2::Mix, 2, 3)], 1),
+                (vec![var(0), var(1), map(F1::Inc, 1), bind(0, Rhs::E(2), Rhs::F(2))], 1),
+                (vec![var(0), map(F1::Half, 0), map(F1::Inc, 1)], 0),
+            ];
+            shapes
+                .into_iter()
+                .map(|(nodes, target)| {
+                    let mut p = Prog::new(nodes);
+                    p.alpha.subscribe = true;
+                    p.alpha.max_subs = 1;
+                    p.alpha.max_observers = 2;
+                    p.alpha.disallow = false;
+                    p.alpha.handler_sets_var = Some(target);
+                    p
+                })
+                .collect()
+        }
         "c09/subs" => subscription_programs(),
         // a reduced alphabet on one shared node, so that subscribe / unsubscribe before the first
         // stabilise followed by two rounds of changes (8 actions) is within reach
